@@ -1,20 +1,28 @@
 #!/usr/bin/env python3
 """Runs every claimed check against every seeded change (on a scratch copy of /repo via CALLOOP_REPO, removed
-afterwards) and writes seeded/MATRIX.md + seeded/<id>/detection.json. Results are diagnostics, not evidence."""
+afterwards) and writes seeded/MATRIX.md + seeded/<id>/detection.json. Results are diagnostics, not evidence.
+usage: seed_matrix.py [seed ids..] [--own] [--missing] [--jobs=N]
+  --own      run only the check of the seed's own property (fast triage)
+  --missing  only seeds without a detection.json
+  --jobs=N   N seeds at a time (each runs its checks with up to 5 in parallel)"""
+import concurrent.futures as cf
 import json, os, re, shutil, subprocess, sys, tempfile
 ROOT = os.path.dirname(os.path.dirname(os.path.abspath(__file__)))
 sys.path.insert(0, os.path.join(ROOT, 'vx'))
 import propinfo
 only = [a for a in sys.argv[1:] if not a.startswith('--')]
-OWN = '--own' in sys.argv   # run only the check of the seed's own property (fast triage)
-MISSING = '--missing' in sys.argv   # only seeds without a detection.json
+OWN = '--own' in sys.argv
+MISSING = '--missing' in sys.argv
+JOBS = int(next((a.split('=')[1] for a in sys.argv if a.startswith('--jobs=')), '1'))
 seeds = sorted(d for d in os.listdir(os.path.join(ROOT, 'seeded')) if os.path.isfile(os.path.join(ROOT, 'seeded', d, 'patch.diff')))
 if only:
     seeds = [s for s in seeds if s in only]
 if MISSING:
     seeds = [s for s in seeds if not os.path.isfile(os.path.join(ROOT, 'seeded', s, 'detection.json'))]
 rows = []
-for sd in seeds:
+
+
+def run_seed(sd):
     tmp = tempfile.mkdtemp(prefix='seedrepo-')
     try:
         subprocess.run('git -C /repo archive HEAD | tar -x -C %s' % tmp, shell=True, check=True)
@@ -24,32 +32,46 @@ for sd in seeds:
             json.dump({'_stale': {'rc': None, 'violations': [], 'undecided': ['patch does not apply to /repo HEAD']}},
                       open(os.path.join(ROOT, 'seeded', sd, 'detection.json'), 'w'), indent=1)
             print(sd, 'STALE: patch does not apply', flush=True)
-            continue
+            return
         res = {}
+
         def one(p):
             env = dict(os.environ, CALLOOP_REPO=tmp, VERIF_EVIDENCE_DIR=os.path.join(tmp, 'evidence'), VERIF_BUILD_DIR=os.path.join(tmp, 'build'), VERIF_REPLAY_DIR=os.path.join(tmp, 'replay'), VERIF_JOBS='4', VERIF_DIAG='1', VERIF_NO_SELFTEST='1')
             o = subprocess.run([os.path.join(ROOT, 'check'), p], capture_output=True, text=True, env=env)
             viol = [l for l in o.stdout.splitlines() if l.startswith('VIOLATION')]
             und = [l for l in o.stdout.splitlines() if l.startswith('UNDECIDED') and 'tier=' not in l]
             return p, {'rc': o.returncode, 'violations': [re.sub(r'replay=\S+ ', '', v)[:300] for v in viol], 'undecided': [u[:300] for u in und]}
-        import concurrent.futures as cf
         with cf.ThreadPoolExecutor(max_workers=5) as ex:
             for p, r in ex.map(one, [sd.split('-')[0]] if OWN else propinfo.CLAIMED):
                 res[p] = r
+        if OWN:
+            # keep what an earlier full run said about the other properties
+            f = os.path.join(ROOT, 'seeded', sd, 'detection.json')
+            if os.path.isfile(f):
+                old = json.load(open(f))
+                old.pop('_stale', None)
+                old.update(res)
+                res = old
         json.dump(res, open(os.path.join(ROOT, 'seeded', sd, 'detection.json'), 'w'), indent=1)
         rows.append((sd, res))
         print(sd, {p: r['rc'] for p, r in res.items() if r['rc'] != 0}, flush=True)
     finally:
         shutil.rmtree(tmp, ignore_errors=True)
-with open(os.path.join(ROOT, 'seeded', 'MATRIX.md'), 'a' if (only or MISSING) else 'w') as fh:
-    if not (only or MISSING):
-        fh.write('# Seeded changes vs checks (rc: 0 = no alarm, 1 = VIOLATION, 2 = undecided)\n\n')
-    for sd, res in rows:
+
+
+with cf.ThreadPoolExecutor(max_workers=JOBS) as pool:
+    list(pool.map(run_seed, seeds))
+rows.sort()
+# MATRIX.md is rebuilt from all detection.json files (whatever this run covered)
+with open(os.path.join(ROOT, 'seeded', 'MATRIX.md'), 'w') as fh:
+    fh.write('# Seeded changes vs checks (rc: 0 = no alarm, 1 = VIOLATION, 2 = undecided)\n\n')
+    for sd in sorted(d for d in os.listdir(os.path.join(ROOT, 'seeded')) if os.path.isfile(os.path.join(ROOT, 'seeded', d, 'detection.json'))):
+        res = json.load(open(os.path.join(ROOT, 'seeded', sd, 'detection.json')))
         target = sd.split('-')[0]
         fh.write('## %s (breaks %s)\n' % (sd, target))
         for p, r in res.items():
             if r['rc'] != 0:
-                fh.write('- %s rc=%d %s\n' % (p, r['rc'], '; '.join(r['violations'] + r['undecided'])[:400]))
+                fh.write('- %s rc=%s %s\n' % (p, r['rc'], '; '.join(r['violations'] + r['undecided'])[:400]))
         if all(r['rc'] == 0 for r in res.values()):
-            fh.write('- MISSED by every check\n')
+            fh.write('- MISSED by every check that was run\n')
         fh.write('\n')
